@@ -881,6 +881,9 @@ func (e *env) opClear(n ns, kill bool) {
 	r := res[p]
 	if plan.direct {
 		if len(r.gone) != plan.lenLo {
+			if e.ctx == knownDirectChild {
+				e.ctx = "" // how many keys go is not part of that known defect
+			}
 			e.failX(p, false, "direct-clear", e.class(name+" count"), "%s %s prefix %s limit %s with no open transaction removed %d of %d matching keys, want %d", name, n, hx(prefix), lim, len(r.gone), len(plan.bp), plan.lenLo)
 		}
 		e.m.applyClear(plan, 0, r.gone)
